@@ -4,6 +4,8 @@ spec/C01/Mbi.tla      : R-spec of the FORMAT - the image as a sequence of region
                         read from the device database at run time), the four ROM-owned words as a record, the reader's cuts, the clauses
 spec/C01/MbiMC.tla    : MC + GEN - TLC checks the region algebra for every composition x abstract input class and prints every case
 spec/C01/MbiTrace.tla : TV - TLC decides every observation of the real builder / parser
+spec/C01/MbiHist.tla  : MC + GEN of the history layer (Mbi.tla "the object's history"): all short action sequences on ONE object;
+                        replayed by c01_hist.py, decided by the same MbiTrace (action events move the settings)
 
 This module only DRIVES the real code (load_from_config route and class-constructor route, every family incl. predecessor names),
 reads numbers off the emitted bytes / parsed objects with struct / hashlib-free byte comparisons, and hands traces to TLC.
@@ -13,10 +15,12 @@ import os
 import struct
 
 from lib import mbi_build as B
-from lib import tlc
+from lib import partlc, tlc
 from lib.common import ROOT, Machinery, import_spsdk, rng, say, scratch
 from lib.par import pmap
 from lib.verdict import Verdict
+
+import c01_hist as H  # noqa: E402
 
 PROP = "C01"
 MARKER = 0x4C54424C
@@ -29,10 +33,11 @@ def limbs(n):
 
 
 # ------------------------------------------------------------------ concretisation of an abstract case
-def concretise(case, member, idx, route):
-    """Abstract input x (+ member) -> concrete option set. All random content is derived from (VERIF_SEED, idx)."""
+def concretise(case, member, idx, route, r=None):
+    """Abstract input x (+ member) -> concrete option set. All random content is derived from (VERIF_SEED, idx)
+    (or drawn from the generator `r` handed in: the history lane concretises several settings records per case)."""
     x = case["x"]
-    r = rng(PROP, "case", idx)
+    r = r or rng(PROP, "case", idx)
     app = bytearray(r.randbytes(x["appLen"]))
     app[0:12] = struct.pack("<3I", 0x20000000 + 4 * r.randrange(1, 0x4000), 0x101 + 2 * r.randrange(0x1000), 0x2001 + 2 * r.randrange(0x1000))
     if x["tail"] == "marker":  # the payload ends in something that resembles the header of a relocation table
@@ -76,25 +81,12 @@ def observe(job):
         shutil.rmtree(os.path.join(scratch(), "c01", f"w{job['idx']}{job['route']}"), ignore_errors=True)
 
 
-def _observe(job):
-    case, member, idx, route = job["case"], job["member"], job["idx"], job["route"]
-    x = case["x"]
-    o = concretise(case, member, idx, route)
-    wd = os.path.join(scratch(), "c01", f"w{idx}{route}")
-    cls_rec = {"id": case["c"], "type": member["type"], "mixins": member["mixins"]}
-    meta = {"idx": idx, "route": route, "twin": member.get("twin", "self"), "member": {k: member[k] for k in ("family", "revision", "target", "auth", "cls")}, "c": case["c"], "x": x}
-    try:
-        mbi, _ = (B.build_config if route == "cfg" else B.build_ctor)(member, o, wd)
-        data = mbi.export()
-    except Exception as e:  # noqa: BLE001 - the builder does not accept this option set: outside the property's quantifier
-        return {"refused": f"{type(e).__name__}: {str(e)[:160]}", "meta": meta}
-    head = {"ev": "Build"}
-    # ---- header trace: everything read from the bytes with struct
+def header_events(data, o, member):
+    """HeaderDescribes on real bytes: everything is read from the emitted image with struct / byte search (no SPSDK code)."""
     total, flags, w28, load = B.header_words(data)
     tzd, ks, iv = o.get("tz_data"), o.get("ks"), o.get("iv")
     apad = pad4(o["app"])
     h = [
-        head,
         {"ev": "ExpLen", "len": len(data), "total": limbs(total)},
         {"ev": "ExpFlags", "type": flags & 0x3F, "sub": (flags >> 6) & 3, "rsvd": (flags >> 8) & 3, "hasVer": bool(flags & 0x400), "reloc": bool(flags & 0x800),
          "hwKey": bool(flags & 0x1000), "tz": (flags >> 13) & 3, "ks": bool(flags & 0x8000), "ver": (flags >> 16) & 0xFFFF},
@@ -111,6 +103,24 @@ def _observe(job):
         h.append(reloc_event(data, o))
     if B.has(member, "ManifestCrc") or B.has(member, "ManifestDigest"):
         h.append(manifest_event(data, o))
+    return h
+
+
+def _observe(job):
+    case, member, idx, route = job["case"], job["member"], job["idx"], job["route"]
+    x = case["x"]
+    o = concretise(case, member, idx, route)
+    wd = os.path.join(scratch(), "c01", f"w{idx}{route}")
+    cls_rec = {"id": case["c"], "type": member["type"], "mixins": member["mixins"]}
+    meta = {"idx": idx, "route": route, "twin": member.get("twin", "self"), "member": {k: member[k] for k in ("family", "revision", "target", "auth", "cls")}, "c": case["c"], "x": x}
+    try:
+        mbi, _ = (B.build_config if route == "cfg" else B.build_ctor)(member, o, wd)
+        data = mbi.export()
+    except Exception as e:  # noqa: BLE001 - the builder does not accept this option set: outside the property's quantifier
+        return {"refused": f"{type(e).__name__}: {str(e)[:160]}", "meta": meta}
+    head = {"ev": "Build"}
+    apad = pad4(o["app"])
+    h = [head] + header_events(data, o, member)
     # ---- parse trace
     p = [head]
     parsed = None
@@ -358,6 +368,11 @@ def write_tables(comps):
     return cf, kf
 
 
+def gh_roots(gh):
+    """Number of initial states of a MbiHist run (each prints the menu of its composition once)."""
+    return sum(1 for p in gh.json_prints() if "menu" in p)
+
+
 def decide(traces):
     """TLC decides every event of every trace; -> list of (trace id, event index (1-based), trace length, event name)."""
     _, res = tlc.tv("C01", "MbiTrace", traces, heap="8g", timeout=1500)
@@ -398,11 +413,55 @@ def canary():
             t["id"] = f"bad-{i}{part}-{evn}.{field}"
             bad.append(t)
             expect.add((t["id"], hit[0] + 1, evn))
+    nh = canary_histories(good, bad, expect)
     rej = decide(good + bad)
-    got = {(r[0], r[1], r[3]) for r in rej}
-    if got != expect or len(expect) < 30:
+    # a history judged against settings it no longer has is wrong in several events: only the first one (the length word) is demanded exactly
+    got = {(r[0], r[1], r[3]) for r in rej if not (r[0].endswith("-nochange") and (r[0], r[1], r[3]) not in expect)}
+    if got != expect or len(expect) < 30 + 3 * nh:
         raise Machinery(f"canary failed: unexpected {sorted(got - expect)[:6]}, missed {sorted(expect - got)[:6]} ({len(expect)} corruptions)")
-    return f"{len(good)} recorded traces of 3 real images accepted, {len(expect)} single-number corruptions rejected at the corrupted event"
+    return (f"{len(good) - nh} recorded traces of 3 real images and {nh} recorded histories of one object accepted, {len(expect)} single-number corruptions rejected "
+            f"at the corrupted event (among them: the length word of the export BEFORE the change kept in the export after it)")
+
+
+def canary_histories(good, bad, expect):
+    """Recorded histories of four real objects (anchors/C01/canary_hist.json: application replaced, key store added, configured again, TrustZone
+    preset set on a parsed object) must be accepted; rejected must be: the SECOND export carrying the length word of the first one (the stale-word
+    class), the second export's length / layout numbers of the first, a fresh twin that differs in a header word or in length, and a history
+    whose change is not in the trace (judged against the old settings)."""
+    with open(os.path.join(ROOT, "anchors", "C01", "canary_hist.json")) as f:
+        rec = json.load(f)
+    for i, c in enumerate(rec):
+        t = c["t"]
+        good.append(dict(t, id=f"goodH-{i}"))
+        exp_at = [k for k, e in enumerate(t["ev"]) if e["ev"] == "Export"]
+        first, second = exp_at[-2], exp_at[-1]
+
+        def ev_after(at, name):
+            return next(k for k in range(at, len(t["ev"])) if t["ev"][k]["ev"] == name)
+
+        def variant(tag, at, field, value):
+            u = json.loads(json.dumps(t))
+            if u["ev"][at][field] == value:
+                return
+            u["ev"][at][field] = value
+            u["id"] = f"badH-{i}-{tag}"
+            bad.append(u)
+            expect.add((u["id"], at + 1, u["ev"][at]["ev"]))
+
+        l1, l2 = ev_after(first, "ExpLen"), ev_after(second, "ExpLen")
+        variant("stale-total", l2, "total", t["ev"][l1]["total"])
+        variant("stale-len", l2, "len", t["ev"][l1]["len"])
+        f2 = ev_after(second, "Fresh")
+        variant("fresh-hdr", f2, "diffs", [[0x20, 0x24]])
+        variant("fresh-len", f2, "len", t["ev"][f2]["len"] + 4)
+        # the change itself left out of the trace: the export after it no longer fits the settings
+        chg = next(k for k in range(first, second) if t["ev"][k]["ev"] in H.HIST_EVENTS - {"Export", "Parse"})
+        u = json.loads(json.dumps(t))
+        del u["ev"][chg]
+        u["id"] = f"badH-{i}-nochange"
+        bad.append(u)
+        expect.add((u["id"], l2, "ExpLen"))
+    return len(rec)
 
 
 def run(tier):
@@ -417,18 +476,37 @@ def run(tier):
         B.mtz_len(m)
     say(f"[C01] device database: {len(mem)} images in {len({(m['family'], m['revision']) for m in mem})} (family name, revision) pairs, {len(comps)} distinct mixin compositions ({v.timer.s()}s)")
 
-    # ---- MC + GEN
-    g = tlc.mc("C01", "MbiMC", "MbiMC.cfg", env={"CLASS_FILE": cf, "KINDS_FILE": kf, "GEN_FULL": "1" if tier == "thorough" else "0"},
-               workers=4 if tier == "quick" else 12, heap="8g", deadlock=False, timeout=1500, coverage=False)
+    # ---- MC + GEN (single images, histories of one object, and the design variant "total length worked out once" that TLC must refute)
+    base_env = {"CLASS_FILE": cf, "KINDS_FILE": kf, "GEN_FULL": "1" if tier == "thorough" else "0"}
+    hdepth = {"H_DEPTH": os.environ.get("C01_HIST_DEPTH", "3" if tier == "thorough" else "2"), "H_DEPTH_P": "2"}
+    tl = partlc.parallel({
+        "mc": lambda: tlc.mc("C01", "MbiMC", "MbiMC.cfg", env=base_env, workers=4 if tier == "quick" else 8, heap="8g", deadlock=False, timeout=1500, coverage=False),
+        "hist": lambda: tlc.mc("C01", "MbiHist", "MbiHist.cfg", env=dict(base_env, H_MEMO="0", **hdepth), workers=4 if tier == "quick" else 8, heap="8g",
+                               deadlock=False, timeout=1500, coverage=False),
+        "memo": lambda: tlc.run("C01", "MbiHist", "MbiHist.cfg", env=dict(base_env, H_MEMO="1", H_DEPTH="2", H_DEPTH_P="0"), workers=1, heap="2g",
+                                deadlock=False, timeout=600),
+    })
+    g, gh, gm = tl["mc"], tl["hist"], tl["memo"]
     # non-vacuity: every case state has exactly three successors (DoExport, DoParse, DoReExport fired for each) - checked below by the state count
     v.add_mc(g)
-    cases = g.json_prints()
+    cases = sorted(g.json_prints(), key=lambda c: json.dumps(c, sort_keys=True))   # TLC prints in the order its workers finish: fixed order before any seeded choice
     modelled = {c["c"] for c in cases}
     not_modelled = [c["id"] for c in comps if c["id"] not in modelled]
     if len(modelled) < 0.8 * len(comps) or len(cases) * 4 != g.distinct:
         raise Machinery(f"GEN emitted {len(cases)} cases for {len(modelled)} of {len(comps)} compositions ({g.distinct} states)")
     say(f"[C01] region algebra checked: {g.distinct} states, {len(cases)} abstract cases in {len(modelled)} compositions; "
         f"{len(not_modelled)} compositions without vector-table header not modelled ({v.timer.s()}s)")
+    # history layer: every state of MbiHist is one history (printed once); every action of the menu must occur; the variant must be refuted
+    v.add_mc(gh)
+    menus, hists = H.parse_gen(gh.json_prints())
+    names_seen = {n.split(":")[0] for h in hists for n in h["h"]}
+    if names_seen != H.HIST_EVENTS or len(hists) + gh_roots(gh) != gh.distinct or set(menus) != modelled:
+        raise Machinery(f"history GEN: {len(hists)} histories, {gh.distinct} states, actions {sorted(names_seen)}, {len(menus)} of {len(modelled)} compositions")
+    if gm.violated != "ExportNowDescribes":
+        raise Machinery(f"the design variant 'total length worked out once per object' was not refuted by TLC ({gm.violated}, {gm.distinct} states)")
+    v.extra["design_variant_refuted"] = ("MbiHist with H_MEMO=1 (an object that keeps the total length of its first export): TLC reports ExportNowDescribes "
+                                         f"violated after {gm.distinct} states - the histories generated reach the class")
+    say(f"[C01] history layer: {len(hists)} histories of one object enumerated and checked by TLC ({gh.distinct} states), design variant refuted ({v.timer.s()}s)")
     v.extra["canary"] = canary()
 
     # ---- replay on the real builder
@@ -457,8 +535,37 @@ def run(tier):
     v.extra["refused_examples"] = sorted({x["refused"][:120] for x in refused})[:8]
     v.extra["not_modelled"] = not_modelled
 
+    # ---- replay of histories on ONE real object each
+    if tier == "quick":
+        hsel = H.select_quick(hists, rng(PROP, "hist"), 3)
+    else:
+        hsel = H.select_quick(hists, rng(PROP, "hist"), 0)   # the deterministic core of the quick tier, then a seeded sample of everything else
+        have = {json.dumps(h, sort_keys=True) for h in hsel}
+        rest = sorted((h for h in hists if json.dumps(h, sort_keys=True) not in have), key=lambda h: json.dumps(h, sort_keys=True))
+        rng(PROP, "hist", "rest").shuffle(rest)
+        hsel += rest[: int(os.environ.get("C01_MAX_HIST", "4000"))]
+    hjobs, hskipped = H.plan(hsel, menus, comps, mem, tier, twin_of, sub_labels)
+    hres = pmap(H.observe, hjobs, chunksize=4)
+    v.count(len(hres))
+    hrefused = [x for x in hres if "refused" in x]
+    hdone = [x for x in hres if "refused" not in x]
+    say(f"[C01] {len(hdone)} histories replayed on the real classes: {sum(1 for x in hdone for e in x['t']['ev'] if e['ev'] == 'Export')} exports, "
+        f"{sum(1 for x in hdone for e in x['t']['ev'] if e['ev'] == 'Fresh')} compared with a fresh object ({len(hrefused)} refused by the builder) ({v.timer.s()}s)")
+    if len(hrefused) > 0.1 * len(hres) or not hdone:
+        raise Machinery(f"the builder refused {len(hrefused)} of {len(hres)} histories of the asserted domain: {sorted({x['refused'][:100] for x in hrefused})[:5]}")
+    hcomps = {x["meta"]["c"] for x in hdone}
+    if hcomps != modelled:
+        raise Machinery(f"history lane: no history replayed for the compositions {sorted(modelled - hcomps)}")
+    v.extra["histories"] = {"enumerated": len(hists), "replayed": len(hdone), "refused_examples": sorted({x["refused"][:120] for x in hrefused})[:6],
+                            "without_member": hskipped}
+
     # ---- TV
     traces, metas = [], {}
+    for k, x in enumerate(hdone):
+        t = dict(x["t"], id=f"H{k}")
+        traces.append(t)
+        metas[t["id"]] = x["meta"]
+        v.nontrivial(json.dumps([x["meta"]["c"], x["meta"]["s"], x["meta"]["lane"], x["meta"]["h"], x["meta"]["route"]], sort_keys=True))
     for k, x in enumerate(done):
         for part in ("h", "p"):
             t = dict(x[part], id=f"{k}{part}")
@@ -477,20 +584,33 @@ def run(tier):
                 raise Machinery(f"case outside the algebra reached trace validation: {json.dumps(meta)[:600]}")
             nrej += 1
             ev = t["ev"][at - 1]
+            if tid.startswith("H"):
+                v.violation(H.key_of(t, at - 1, meta),
+                            f"{meta['member']['family']}:{meta['member']['revision']} {meta['member']['target']}/{meta['member']['auth']} object ({meta['lane']}, via {meta['route']}), "
+                            f"history {'>'.join(e['ev'] for e in t['ev'][:at] if e['ev'] in H.HIST_EVENTS)}: event #{at} {json.dumps(ev)[:300]} rejected "
+                            f"(start {json.dumps(t['x'])[:300]})",
+                            {"meta": meta, "trace": t})
+                continue
             v.violation(key_of(t, at - 1, meta),
                         f"{meta['member']['family']}:{meta['member']['revision']} {meta['member']['target']}/{meta['member']['auth']} via {meta['route']}: event #{at} {json.dumps(ev)[:300]} "
                         f"rejected for x={json.dumps(meta['x'])[:400]}",
                         {"meta": meta, "trace": t})
     say(f"[C01] {len(traces)} traces decided by TLC, {nrej} events rejected ({v.timer.s()}s)")
+    hx = hdone[len(hdone) // 2]
+    v.sample({"member": hx["meta"]["member"], "route": hx["meta"]["route"], "lane": hx["meta"]["lane"], "start": hx["t"]["x"], "history_trace": hx["t"]["ev"]})
     for x in (done[0], done[len(done) // 2], done[-1]):
         v.sample({"member": x["meta"]["member"], "route": x["meta"]["route"], "x": x["meta"]["x"], "header_trace": x["h"]["ev"], "parse_trace": x["p"]["ev"]})
     v.cov["rule"] = ("cases = every (composition, abstract input) state of MbiMC (payload length classes mod 4/16/512 around 0x38/0x40, tail plain / relocation "
                      "marker, TrustZone disabled/default/custom, key store, 0..2 relocation entries, certificate-block kind, versions, sub-type, HW-key flag, "
                      "load address, manifest digest option); quick: per composition a seeded sample covering every value of every field, thorough: all (capped); "
                      "each case is concretised with seeded random contents on a member family (members rotate over all images of the database) and driven through "
-                     "load_from_config and/or the class constructor; non-trivial = the builder accepted it and both traces reached TLC; distinct by (composition, x, route)")
+                     "load_from_config and/or the class constructor; non-trivial = the builder accepted it and both traces reached TLC; distinct by (composition, x, route). "
+                     "Histories = every state of MbiHist (all sequences of up to 2 (thorough: 3) actions Export / SetApp / SetTz / ClearTz / SetKs / ClearKs / Reconfigure / Parse "
+                     "per composition, from a small and a full start, on a built and on a parsed object); quick: per composition every action once after an export "
+                     "(Export, action, Export) on a built object, every third one on a parsed object, plus a seeded sample of the others; thorough: all pairs and a seeded "
+                     "sample of the triples; every export of a history is read like a single image AND compared with the export of a fresh object holding the settings of that moment")
     v.cov["exhaustive"] = False
-    v.cov["checker_cmd"] = "TLC MbiMC (region algebra, case space) ; TLC MbiTrace (decides each observation)"
+    v.cov["checker_cmd"] = "TLC MbiMC (region algebra, case space) ; TLC MbiHist (histories of one object, design variant refuted) ; TLC MbiTrace (decides each observation)"
     v.cov["trusted_base"] = ["struct", "bit-serial CRC-32/MPEG-2 table built in lib/mbi_build.py", "cryptography (key size of PEM files only)", "TLC"]
     v.assumptions += [
         "compositions without a vector-table header (DSC MC56F8xxx / MWCT20xx: BcaTable+Fcf; MCXC: Bca+Fcf) carry no image-type word and are not modelled: "
@@ -502,6 +622,11 @@ def run(tier):
         "there the ISK signature and fields computed over it (manifest CRC, manifest digest) may differ as well",
         "certificate block lengths are computed from the DER/PEM files of the key pool (v1: 32 + sum(4 + pad4(der)) + 128; v2.1: 16 + table + keys + ISK part)",
         "key store = present (1424 bytes) or absent; KeyStore objects with an empty store are a constructor-only corner and not generated",
+        "histories: the attribute-level actions are what the class constructor does with its keywords (setattr; for the manifest classes TrustZone travels in the manifest, "
+        "so SetTz replaces trust_zone and manifest as the constructor route supplies them); Reconfigure = load_from_config on the same object",
+        "histories not generated (not asserted): a second configuration WITHOUT a relocation table on an object that has one (whether load_from_config resets what the new "
+        "configuration does not mention is settled neither by the property nor by the documentation; Mbi_MixinRelocTable keeps the old table); Parse inside a history only "
+        "where the single-image lane does not already report the parser (no relocation table, no custom TrustZone preset in an HMAC image, class found by its own type word)",
     ]
     return v.finish()
 
@@ -516,6 +641,22 @@ def replay(path):
     write_tables(comps)
     member = next(m for m in mem if all(m[k] == meta["member"][k] for k in ("family", "revision", "target", "auth", "cls")))
     member = dict(member, sub_labels=sub_labels(member), twin=twin_of(member, mem))
+    if "hid" in meta:  # a history of one object
+        res = H.observe({"c": meta["c"], "s": meta["s"], "lane": meta["lane"], "h": meta["h"], "menu": meta["menu"], "member": member, "hid": meta["hid"],
+                         "route": meta["route"], "full": meta.get("full", False)})
+        if "refused" in res:
+            say(f"replay: the builder refuses this history now: {res['refused']}")
+            return 0
+        t = dict(res["t"], id="H0")
+        rej = decide([t])
+        say(json.dumps(t["ev"])[:4000])
+        for tid, at, length, evname in rej:
+            say(f"rejected: event #{at} ({evname}); key {H.key_of(t, at - 1, res['meta'])}")
+        if rej:
+            say(f"VIOLATION property=C01 replay={path}")
+            return 1
+        say("replay: accepted by the spec")
+        return 0
     res = observe({"case": {"c": meta["c"], "x": meta["x"]}, "member": member, "idx": meta["idx"], "route": meta["route"]})
     if "refused" in res:
         say(f"replay: the builder refuses this option set now: {res['refused']}")
